@@ -111,6 +111,12 @@ func runC02(c *Ctx) {
 	checkMayWrapSymmetric(c, "R02k")
 	c.Rule("R02l", ruleTextPartsAlias, 1)
 	checkPartsAlias(c, "R02l")
+	c.Rule("R02n", ruleTextHasValidity, 3)
+	checkHasValidity(c, "R02n")
+	c.Rule("R02o", ruleTextNoSelfCompare, 20)
+	checkNoSelfCompare(c, "R02o")
+	c.Rule("R02p", ruleTextMariaFilter, 1)
+	checkMariaFilter(c, "R02p")
 	c.Rule("R02m", "SQLite default comparison is exact (same rule as C01/R01g): a default that differs only in the letter case of a string literal is a change", 2)
 	checkExactDefaultsRule(c, "R02m")
 
